@@ -173,6 +173,12 @@ func (x *c03World) Apply(op bfs.Op) (fs []bfs.Finding) {
 		e.ua.Plan[base+3+nOld] = uagent.FaultFailure
 	}
 	labelledBefore := x.labelled()
+	unlabelledBefore := map[string]string{} // every identity without the handler's label, incl. RA private keys of earlier runs
+	for _, id := range e.ua.Ring.Keys {
+		if !strings.Contains(id.Comment, c03Label) {
+			unlabelledBefore[string(id.Blob)] = id.Comment
+		}
+	}
 	addsBefore, caBefore := len(e.ua.Ring.AddLog), len(e.ca.Issued)
 	err, esc := e.run(defaultParams("alice"), []gensign.Handler{h})
 	if esc != "" {
@@ -197,6 +203,23 @@ func (x *c03World) Apply(op bfs.Op) (fs []bfs.Finding) {
 		}
 		if !found {
 			add("foreign-identity-removed:"+strings.ReplaceAll(comment, " ", "-"), fmt.Sprintf("the run (%s → %s) removed the identity with comment %q, which does not carry the handler's label", op.Name, errType(err), comment))
+		}
+	}
+	for blob, comment := range unlabelledBefore {
+		if _, isForeign := x.foreign[blob]; isForeign {
+			continue
+		}
+		found := false
+		for _, id := range e.ua.Ring.Keys {
+			if string(id.Blob) == blob {
+				found = true
+				if id.Comment != comment {
+					add("unlabelled-identity-altered", fmt.Sprintf("identity with comment %q now has comment %q", comment, id.Comment))
+				}
+			}
+		}
+		if !found {
+			add("unlabelled-identity-removed:"+strings.ReplaceAll(comment, " ", "-"), fmt.Sprintf("the run (%s) removed an identity with comment %q added by an earlier run, which does not carry the handler's label", op.Name, comment))
 		}
 	}
 	// every identity the RA added carries a finite lifetime not shorter than the validity
